@@ -113,35 +113,72 @@ pub closed spec fn empty_state(a: A, cap: int) -> bool {
     &&& a.next_v == 0
 }
 
-/// add(v): blank vertex on an absent id, nothing on a present id  (C04)
+// Every step relation is the conjunction of five component relations, so that a failing obligation names the
+// component (and therefore the properties) it belongs to:
+//   content : data bytes and edges          (C03, C04)
+//   pers    : Empty / Stored / Taken        (C01, C02, C03)
+//   tags    : group tags and member lists   (C01, C02, C06)
+//   counter : unread counters               (C01, C02, C06)
+//   alloc   : allocator position            (C05)
+
+pub closed spec fn dims_same(a: A, a2: A) -> bool {
+    &&& a2.tag.len() == a.tag.len()
+    &&& a2.pers.len() == a.pers.len()
+    &&& a2.data.len() == a.data.len()
+    &&& a2.edges.len() == a.edges.len()
+    &&& a2.members.len() == a.members.len()
+    &&& a2.counter.len() == a.counter.len()
+}
+
+pub closed spec fn edges_ok(a: A) -> bool {
+    forall|v: int| 0 <= v < a.edges.len() ==> distinct_keys(#[trigger] a.edges[v])
+}
+
+// ---- add(v): blank vertex on an absent id, nothing on a present id  (C04) ----
+pub closed spec fn add_content(a: A, a2: A, v: int) -> bool {
+    if a.tag[v] == 0 {
+        &&& a2.data =~~= a.data.update(v, Seq::<u8>::empty())
+        &&& a2.edges =~~= a.edges.update(v, Seq::<(Label, usize)>::empty())
+    } else {
+        &&& a2.data =~~= a.data
+        &&& a2.edges =~~= a.edges
+    }
+}
+pub closed spec fn add_pers(a: A, a2: A, v: int) -> bool {
+    a2.pers =~~= (if a.tag[v] == 0 { a.pers.update(v, Persistence::Empty) } else { a.pers })
+}
+pub closed spec fn add_tags(a: A, a2: A, v: int) -> bool {
+    &&& a2.tag =~~= (if a.tag[v] == 0 { a.tag.update(v, 1) } else { a.tag })
+    &&& a2.members =~~= a.members
+}
+pub closed spec fn add_counter(a: A, a2: A, v: int) -> bool { a2.counter =~~= a.counter }
+pub closed spec fn add_gc(a: A, a2: A, v: int) -> bool {
+    add_pers(a, a2, v) && add_tags(a, a2, v) && add_counter(a, a2, v) && dims_same(a, a2)
+}
 pub closed spec fn add_step(a: A, a2: A, v: int) -> bool {
-    &&& a2.members =~~= a.members
-    &&& a2.counter =~~= a.counter
-    &&& a2.next_v == a.next_v
-    &&& if a.tag[v] == 0 {
-            &&& a2.tag =~~= a.tag.update(v, 1)
-            &&& a2.pers =~~= a.pers.update(v, Persistence::Empty)
-            &&& a2.data =~~= a.data.update(v, Seq::<u8>::empty())
-            &&& a2.edges =~~= a.edges.update(v, Seq::<(Label, usize)>::empty())
-        } else {
-            &&& a2.tag =~~= a.tag
-            &&& same_graph_part(a, a2)
-        }
+    add_content(a, a2, v) && add_gc(a, a2, v) && a2.next_v == a.next_v
 }
 
-/// put(v,d): v holds d, unread; the group's counter grows iff the old datum was not already unread  (C02, C03)
-pub closed spec fn put_step(a: A, a2: A, v: int, d: Seq<u8>) -> bool {
-    &&& a2.tag =~~= a.tag
-    &&& a2.members =~~= a.members
+// ---- put(v,d): v holds d, unread; the group's counter grows iff the old datum was not already unread ----
+pub closed spec fn put_content(a: A, a2: A, v: int, d: Seq<u8>) -> bool {
     &&& a2.edges =~~= a.edges
-    &&& a2.next_v == a.next_v
-    &&& a2.pers =~~= a.pers.update(v, Persistence::Stored)
     &&& a2.data =~~= a.data.update(v, d)
-    &&& a2.counter =~~= (if a.tag[v] >= 2 && !is_unread(a.pers[v]) {
-            a.counter.update(a.tag[v], a.counter[a.tag[v]] + 1)
-        } else { a.counter })
+}
+pub closed spec fn put_pers(a: A, a2: A, v: int) -> bool { a2.pers =~~= a.pers.update(v, Persistence::Stored) }
+pub closed spec fn put_tags(a: A, a2: A, v: int) -> bool { a2.tag =~~= a.tag && a2.members =~~= a.members }
+pub closed spec fn put_counter(a: A, a2: A, v: int) -> bool {
+    a2.counter =~~= (if a.tag[v] >= 2 && !is_unread(a.pers[v]) {
+        a.counter.update(a.tag[v], a.counter[a.tag[v]] + 1)
+    } else { a.counter })
+}
+pub closed spec fn put_gc(a: A, a2: A, v: int) -> bool {
+    put_pers(a, a2, v) && put_tags(a, a2, v) && put_counter(a, a2, v) && dims_same(a, a2)
+}
+pub closed spec fn put_step(a: A, a2: A, v: int, d: Seq<u8>) -> bool {
+    put_content(a, a2, v, d) && put_gc(a, a2, v) && a2.next_v == a.next_v
 }
 
+// ---- data(v): returns the bytes of the last put; a first read decrements; the group dies exactly at zero ----
 pub closed spec fn data_result(a: A, v: int) -> Option<Seq<u8>> {
     if a.pers[v] == Persistence::Empty { None } else { Some(a.data[v]) }
 }
@@ -151,51 +188,72 @@ pub closed spec fn data_collects(a: A, v: int) -> bool {
     a.tag[v] >= 2 && is_unread(a.pers[v]) && a.counter[a.tag[v]] == 1
 }
 
-/// data(v): returns the bytes of the last put; a first read decrements; the group dies exactly at zero  (C01, C02, C03, C06)
-pub closed spec fn data_step(a: A, a2: A, v: int) -> bool {
+pub closed spec fn data_content(a: A, a2: A, v: int) -> bool { a2.data =~~= a.data && a2.edges =~~= a.edges }
+pub closed spec fn data_pers(a: A, a2: A, v: int) -> bool {
+    a2.pers =~~= (if is_unread(a.pers[v]) { a.pers.update(v, Persistence::Taken) } else { a.pers })
+}
+/// who is removed: exactly the vertices tagged with the reader's group, and only when the call collects
+pub closed spec fn data_tags(a: A, a2: A, v: int) -> bool {
     let b = a.tag[v];
-    &&& a2.data =~~= a.data
-    &&& a2.edges =~~= a.edges
-    &&& a2.next_v == a.next_v
-    &&& a2.pers =~~= (if is_unread(a.pers[v]) { a.pers.update(v, Persistence::Taken) } else { a.pers })
-    &&& if data_collects(a, v) {
-            &&& a2.tag =~~= Seq::new(a.tag.len(), |u: int| if a.tag[u] == b { 0int } else { a.tag[u] })
-            &&& a2.members =~~= a.members.update(b, Seq::<usize>::empty())
-            &&& a2.counter =~~= a.counter.update(b, 0)
-        } else if b >= 2 && is_unread(a.pers[v]) {
-            &&& a2.tag =~~= a.tag
-            &&& a2.members =~~= a.members
-            &&& a2.counter =~~= a.counter.update(b, a.counter[b] - 1)
-        } else {
-            same_gc_part(a, a2)
-        }
+    if data_collects(a, v) {
+        &&& a2.tag =~~= Seq::new(a.tag.len(), |u: int| if a.tag[u] == b { 0int } else { a.tag[u] })
+        &&& a2.members =~~= a.members.update(b, Seq::<usize>::empty())
+    } else {
+        &&& a2.tag =~~= a.tag
+        &&& a2.members =~~= a.members
+    }
+}
+pub closed spec fn data_counter(a: A, a2: A, v: int) -> bool {
+    let b = a.tag[v];
+    a2.counter =~~= (if data_collects(a, v) { a.counter.update(b, 0) }
+        else if b >= 2 && is_unread(a.pers[v]) { a.counter.update(b, a.counter[b] - 1) }
+        else { a.counter })
+}
+pub closed spec fn data_gc(a: A, a2: A, v: int) -> bool {
+    data_pers(a, a2, v) && data_tags(a, a2, v) && data_counter(a, a2, v) && dims_same(a, a2)
+}
+pub closed spec fn data_step(a: A, a2: A, v: int) -> bool {
+    data_content(a, a2, v) && data_gc(a, a2, v) && a2.next_v == a.next_v
 }
 
-/// bind(v1,v2,l): edge upsert + the three group-join rules  (C02, C03, C06)
-pub closed spec fn bind_step(a: A, a2: A, v1: int, v2: int, l: Label) -> bool {
+// ---- bind(v1,v2,l): edge upsert + the three group-join rules ----
+pub closed spec fn bind_content(a: A, a2: A, v1: int, v2: int, l: Label) -> bool {
+    &&& a2.data =~~= a.data
+    &&& a2.edges =~~= a.edges.update(v1, upsert(a.edges[v1], l, v2 as usize))
+}
+pub closed spec fn bind_pers(a: A, a2: A) -> bool { a2.pers =~~= a.pers }
+pub closed spec fn bind_tags(a: A, a2: A, v1: int, v2: int) -> bool {
     let t1 = a.tag[v1];
     let t2 = a.tag[v2];
-    &&& a2.pers =~~= a.pers
-    &&& a2.data =~~= a.data
-    &&& a2.next_v == a.next_v
-    &&& a2.edges =~~= a.edges.update(v1, upsert(a.edges[v1], l, v2 as usize))
-    &&& if t1 == 1 && t2 == 1 {
-            let b = first_free(a);
-            &&& 2 <= b < 16
-            &&& a2.tag =~~= a.tag.update(v1, b).update(v2, b)
-            &&& a2.members =~~= a.members.update(b, seq![v1 as usize, v2 as usize])
-            &&& a2.counter =~~= a.counter.update(b, u01(a.pers, v1) + u01(a.pers, v2))
-        } else if t1 == 1 {
-            &&& a2.tag =~~= a.tag.update(v1, t2)
-            &&& a2.members =~~= a.members.update(t2, a.members[t2].push(v1 as usize))
-            &&& a2.counter =~~= a.counter.update(t2, a.counter[t2] + u01(a.pers, v1))
-        } else if t2 == 1 {
-            &&& a2.tag =~~= a.tag.update(v2, t1)
-            &&& a2.members =~~= a.members.update(t1, a.members[t1].push(v2 as usize))
-            &&& a2.counter =~~= a.counter.update(t1, a.counter[t1] + u01(a.pers, v2))
-        } else {
-            same_gc_part(a, a2)
-        }
+    if t1 == 1 && t2 == 1 {
+        let b = first_free(a);
+        &&& 2 <= b < 16
+        &&& a2.tag =~~= a.tag.update(v1, b).update(v2, b)
+        &&& a2.members =~~= a.members.update(b, seq![v1 as usize, v2 as usize])
+    } else if t1 == 1 {
+        &&& a2.tag =~~= a.tag.update(v1, t2)
+        &&& a2.members =~~= a.members.update(t2, a.members[t2].push(v1 as usize))
+    } else if t2 == 1 {
+        &&& a2.tag =~~= a.tag.update(v2, t1)
+        &&& a2.members =~~= a.members.update(t1, a.members[t1].push(v2 as usize))
+    } else {
+        &&& a2.tag =~~= a.tag
+        &&& a2.members =~~= a.members
+    }
+}
+pub closed spec fn bind_counter(a: A, a2: A, v1: int, v2: int) -> bool {
+    let t1 = a.tag[v1];
+    let t2 = a.tag[v2];
+    a2.counter =~~= (if t1 == 1 && t2 == 1 { a.counter.update(first_free(a), u01(a.pers, v1) + u01(a.pers, v2)) }
+        else if t1 == 1 { a.counter.update(t2, a.counter[t2] + u01(a.pers, v1)) }
+        else if t2 == 1 { a.counter.update(t1, a.counter[t1] + u01(a.pers, v2)) }
+        else { a.counter })
+}
+pub closed spec fn bind_gc(a: A, a2: A, v1: int, v2: int) -> bool {
+    bind_pers(a, a2) && bind_tags(a, a2, v1, v2) && bind_counter(a, a2, v1, v2) && dims_same(a, a2)
+}
+pub closed spec fn bind_step(a: A, a2: A, v1: int, v2: int, l: Label) -> bool {
+    bind_content(a, a2, v1, v2, l) && bind_gc(a, a2, v1, v2) && a2.next_v == a.next_v
 }
 
 /// preconditions of bind within the limits of the property quantifier
@@ -418,7 +476,7 @@ pub proof fn lemma_empty_inv(a: A, cap: int)
 }
 
 pub proof fn lemma_add_inv(a: A, a2: A, v: int)
-    requires inv(a), 0 <= v < a.tag.len(), add_step(a, a2, v),
+    requires inv(a), 0 <= v < a.tag.len(), add_gc(a, a2, v), edges_ok(a2), a2.next_v >= 0,
     ensures inv(a2),
 {
     if a.tag[v] == 0 {
@@ -432,18 +490,16 @@ pub proof fn lemma_add_inv(a: A, a2: A, v: int)
         assert forall|u: int| 0 <= u < a2.tag.len() implies #[trigger] in_own_group(a2, u) by {
             assert(in_own_group(a, u));
         }
-        assert forall|u: int| 0 <= u < a2.tag.len() implies distinct_keys(#[trigger] a2.edges[u]) by {
-            if u != v { assert(distinct_keys(a.edges[u])); }
-        }
+        assert forall|u: int| 0 <= u < a2.tag.len() implies distinct_keys(#[trigger] a2.edges[u]) by {}
     } else {
         assert forall|b: int| 2 <= b < 16 implies #[trigger] group_ok(a2, b) by { assert(group_ok(a, b)); }
         assert forall|u: int| 0 <= u < a2.tag.len() implies #[trigger] in_own_group(a2, u) by { assert(in_own_group(a, u)); }
-        assert forall|u: int| 0 <= u < a2.tag.len() implies distinct_keys(#[trigger] a2.edges[u]) by { assert(distinct_keys(a.edges[u])); }
+        assert forall|u: int| 0 <= u < a2.tag.len() implies distinct_keys(#[trigger] a2.edges[u]) by {}
     }
 }
 
-pub proof fn lemma_put_inv(a: A, a2: A, v: int, d: Seq<u8>)
-    requires inv(a), present(a, v), put_step(a, a2, v, d),
+pub proof fn lemma_put_inv(a: A, a2: A, v: int)
+    requires inv(a), present(a, v), put_gc(a, a2, v), edges_ok(a2), a2.next_v >= 0,
     ensures inv(a2),
 {
     let t = a.tag[v];
@@ -460,15 +516,15 @@ pub proof fn lemma_put_inv(a: A, a2: A, v: int, d: Seq<u8>)
         }
     }
     assert forall|u: int| 0 <= u < a2.tag.len() implies #[trigger] in_own_group(a2, u) by { assert(in_own_group(a, u)); }
-    assert forall|u: int| 0 <= u < a2.tag.len() implies distinct_keys(#[trigger] a2.edges[u]) by { assert(distinct_keys(a.edges[u])); }
+    assert forall|u: int| 0 <= u < a2.tag.len() implies distinct_keys(#[trigger] a2.edges[u]) by {}
 }
 
 pub proof fn lemma_data_inv(a: A, a2: A, v: int)
-    requires inv(a), present(a, v), data_step(a, a2, v),
+    requires inv(a), present(a, v), data_gc(a, a2, v), edges_ok(a2), a2.next_v >= 0,
     ensures inv(a2),
 {
     let t = a.tag[v];
-    assert forall|u: int| 0 <= u < a2.tag.len() implies distinct_keys(#[trigger] a2.edges[u]) by { assert(distinct_keys(a.edges[u])); }
+    assert forall|u: int| 0 <= u < a2.tag.len() implies distinct_keys(#[trigger] a2.edges[u]) by {}
     if !is_unread(a.pers[v]) {
         assert forall|b: int| 2 <= b < 16 implies #[trigger] group_ok(a2, b) by { assert(group_ok(a, b)); }
         assert forall|u: int| 0 <= u < a2.tag.len() implies #[trigger] in_own_group(a2, u) by { assert(in_own_group(a, u)); }
@@ -505,15 +561,12 @@ pub proof fn lemma_data_inv(a: A, a2: A, v: int)
 }
 
 pub proof fn lemma_bind_inv(a: A, a2: A, v1: int, v2: int, l: Label, n: int)
-    requires inv(a), bind_pre(a, v1, v2, l, n), bind_step(a, a2, v1, v2, l),
+    requires inv(a), bind_pre(a, v1, v2, l, n), bind_gc(a, a2, v1, v2), edges_ok(a2), a2.next_v >= 0,
     ensures inv(a2),
 {
     let t1 = a.tag[v1];
     let t2 = a.tag[v2];
-    assert forall|u: int| 0 <= u < a2.tag.len() implies distinct_keys(#[trigger] a2.edges[u]) by {
-        assert(distinct_keys(a.edges[u]));
-        if u == v1 { lemma_upsert_distinct(a.edges[v1], l, v2 as usize); }
-    }
+    assert forall|u: int| 0 <= u < a2.tag.len() implies distinct_keys(#[trigger] a2.edges[u]) by {}
     if t1 == 1 && t2 == 1 {
         let b = first_free(a);
         lemma_first_free_props(a.members, 2);
@@ -582,6 +635,31 @@ pub proof fn lemma_join_inv(a: A, a2: A, w: int, g: int)
             let k = choose|k: int| 0 <= k < a.members[a.tag[u]].len() && a.members[a.tag[u]][k] == u as usize;
             assert(a2.members[a.tag[u]][k] == u as usize);
         }
+    }
+}
+
+/// the content component keeps labels distinct (premise `edges_ok(a2)` of the invariant lemmas)
+pub proof fn lemma_edges_ok_same(a: A, a2: A)
+    requires inv(a), a2.edges =~~= a.edges,
+    ensures edges_ok(a2),
+{
+    assert forall|v: int| 0 <= v < a2.edges.len() implies distinct_keys(#[trigger] a2.edges[v]) by { assert(distinct_keys(a.edges[v])); }
+}
+
+pub proof fn lemma_edges_ok_add(a: A, a2: A, v: int)
+    requires inv(a), 0 <= v < a.tag.len(), add_content(a, a2, v),
+    ensures edges_ok(a2),
+{
+    assert forall|u: int| 0 <= u < a2.edges.len() implies distinct_keys(#[trigger] a2.edges[u]) by { assert(distinct_keys(a.edges[u])); }
+}
+
+pub proof fn lemma_edges_ok_bind(a: A, a2: A, v1: int, v2: int, l: Label)
+    requires inv(a), 0 <= v1 < a.tag.len(), bind_content(a, a2, v1, v2, l),
+    ensures edges_ok(a2),
+{
+    assert forall|u: int| 0 <= u < a2.edges.len() implies distinct_keys(#[trigger] a2.edges[u]) by {
+        assert(distinct_keys(a.edges[u]));
+        if u == v1 { lemma_upsert_distinct(a.edges[v1], l, v2 as usize); }
     }
 }
 
